@@ -417,9 +417,21 @@ def run_line(state, sx):
         g = make_fn((['a', 'b'], [1], None, None))
         base = g
         made = []
-        for cls, params in decos_dec(a[0]):
+        base_spec = spec_fields(inspect.getfullargspec(base))
+        for j, (cls, params) in enumerate(decos_dec(a[0])):
             g = construct(cls, params, g)
             made.append((g, enc([(c, p) for c, p in dump(g)[0]])))
+            # the memo field: request the specification of some of the objects built so far (outer or inner), so that later
+            # constructors work on objects whose memo is already filled
+            if (j + len(cls)) % 2 == 0:
+                probe = made[(j * 7 + len(cls)) % len(made)][0]
+                if spec_fields(pyg_base.getargspec(probe)) != base_spec:
+                    raise AssertionError('argument specification not forwarded (intermediate object)')
+        if spec_fields(pyg_base.getargspec(g)) != base_spec:
+            raise AssertionError('argument specification not forwarded after re-wrapping')
+        for o, _ in made:
+            if spec_fields(pyg_base.getargspec(o)) != base_spec:
+                raise AssertionError('argument specification of an earlier object changed')
         chain, b = dump(g)
         assert b is base
         # observation outside the property statement: did a constructor edit an earlier object in place?
